@@ -31,6 +31,7 @@ type HarnessSpec struct {
 	Tier      string `json:"tier,omitempty"` // "thorough" = only in thorough tier
 	Clause    string `json:"clause,omitempty"`
 	ExactReal bool   `json:"exact_real,omitempty"`
+	FeasMs    int    `json:"feas_timeout_ms,omitempty"`
 }
 
 type Spec struct {
@@ -258,7 +259,7 @@ func cmdRun(args []string) int {
 			to = 20000
 		}
 		return &interp.Config{InitPkgs: interp.DefaultInitPkgs, TrackPkgs: []string{"github.com/paulmach/orb", "github.com/paulmach/protoscan"},
-			MaxSteps: h.MaxSteps, FloatFP: h.FloatFP, TimeoutMs: to, SolverBin: h.Solver, MaxPaths: h.MaxPaths, Trace: *trace, MergeFuncs: mergeSet, ExactReal: h.ExactReal}
+			MaxSteps: h.MaxSteps, FloatFP: h.FloatFP, TimeoutMs: to, SolverBin: h.Solver, MaxPaths: h.MaxPaths, Trace: *trace, MergeFuncs: mergeSet, ExactReal: h.ExactReal, FeasMs: h.FeasMs}
 	}
 	// enumerate jobs
 	var jobs []job
